@@ -69,6 +69,7 @@ def build(case, seedkey="seed", force_real=False):
             kw["vdim_mapping"] = {v: t for v, t in zip(vd, tgt) if t is not None} if len(dims) >= k else {}
             if len(kw["vdim_mapping"]) != k:
                 kw["vdim_mapping"] = {}
+            kw["vdim_mapping"] = gen.shuffled_mapping(kw["vdim_mapping"], case["perm_seed"] + 3)
     f = df.Field(mesh, nvdim=k, value=arr, dtype=np.complex128 if cplx else None, unit=case["unit"], **kw)
     return mesh, f, arr
 
@@ -190,8 +191,14 @@ def check_inverse(case):
         require(list(m2.region.dims) == list(mesh.region.dims), f"{what}-dims", f"{m2.region.dims}")
         require(list(m2.region.units) == list(mesh.region.units), f"{what}-units", f"{m2.region.units}")
 
+    def snap(x):
+        return (x.array.tobytes(), x.mesh.region.pmin.tobytes(), x.mesh.region.pmax.tobytes(), tuple(int(i) for i in x.mesh.n),
+                tuple(x.mesh.region.dims), None if x.vdims is None else tuple(x.vdims))
+
     F = f.fftn()
+    sF = snap(F)
     b = F.ifftn()
+    require(snap(F) == sF, "inverse-modified-operand", "ifftn changed the k-space field or its mesh")
     same_geometry(b.mesh, "ifftn")
     if np.max(np.abs(b.array - arr)) > tol:
         raise Violation("inverse-c2c", "ifftn(fftn(f)) != f")
@@ -203,7 +210,11 @@ def check_inverse(case):
     require(F.mesh.ifftn().allclose(b.mesh), "mesh-ifftn-consistent")
     if not case["cplx"]:
         R = f.rfftn()
+        sR = snap(R)
+        R.irfftn()  # without a shape first: the k-space field must be reusable afterwards
+        require(snap(R) == sR, "inverse-modified-operand", f"irfftn() changed the k-space field or its mesh (n now {R.mesh.n})")
         r = R.irfftn(shape=n)
+        require(snap(R) == sR, "inverse-modified-operand", "irfftn(shape) changed the k-space field or its mesh")
         same_geometry(r.mesh, "irfftn-shape")
         if np.max(np.abs(r.array - arr)) > tol:
             raise Violation("inverse-r2c-shape", f"irfftn(rfftn(f), shape=n) != f for n={n}")
